@@ -42,6 +42,29 @@ CLAIMED["C04"] = {
     "technique": _T + ": guard extraction + interval algebra vs documented table, dominance of the check over entry points, who-may-construct on checked types",
 }
 
+CLAIMED["C09"] = {
+    "text": "Decides structural necessary conditions of the k-means property for all data, seeds and budgets: fit, fit_with, both "
+            "predict forms and transform obtain (index, distance) from one scan function that keeps the smaller rdistance, "
+            "updates index and distance together and covers every centroid row; every field of the model returned by fit is a "
+            "function of state saved under the same acceptance guard as the returned centroids (never of per-restart scratch "
+            "state); the buffers behind inertia and counts were filled from the centroid matrix that is returned, with no "
+            "reassignment in between. Not decided: cost monotonicity, bounding box, numeric inertia values.",
+    "design_ref": "DESIGN.md section 4, C09",
+    "note": "Trusted: rustc resolution/typeck, the fact dump, Distance::rdistance being the reduced distance of the configured metric.",
+    "technique": _T + ": call-graph agreement on one arg-min routine, guarded-state consistency and reaching-definition freshness of the result fields",
+}
+
+CLAIMED["C14"] = {
+    "text": "Decides two structural necessary conditions for all trees and data: the comparison that routes a training row to the "
+            "left child when the child masks are built is the same canonical relation (feature OP split) as the one "
+            "make_prediction descends by; split creation is dominated by the min_weight_split, max_depth and "
+            "min_impurity_decrease tests, candidates leaving less than min_weight_leaf on a side are skipped, and children are "
+            "created at depth + 1. Not decided: impurity arithmetic, leaf majorities, importances.",
+    "design_ref": "DESIGN.md section 4, C14",
+    "note": "Trusted: rustc resolution/typeck, the fact dump.",
+    "technique": _T + ": sibling agreement of the fit-time and predict-time routing relation, dominance of limit tests over split creation",
+}
+
 CLAIMED["C19"] = {
     "text": "Decided on the workspace compiled with every crate's `serde` feature (which the test suite never builds): the "
             "configuration type-checks; every Serialize type has Deserialize and vice versa; in the expanded derive output "
